@@ -162,7 +162,11 @@ def run_case(case, work, rec):
                     poison.set_poison(pv)
                     pools.CTL.reset(mode="inproc", seed=rng.randrange(10 ** 6))
                     try:
-                        md = Mandoline(path, fields=list(fl), limit_level=limit, serial=serial, verbose=0)
+                        # a single field may be named by a plain string (the form used outside the entry point)
+                        farg = fl[0] if len(fl) == 1 and fl[0] != "all" and serial else list(fl)
+                        if isinstance(farg, str):
+                            rec.count("field_given_as_string")
+                        md = Mandoline(path, fields=farg, limit_level=limit, serial=serial, verbose=0)
                         outs.append(md.slice(normal=n, pos=pos, fformat="return"))
                     except Exception as e:
                         err = f"{type(e).__name__}: {str(e)[:200]}"
